@@ -87,7 +87,13 @@ def make_case(seed, shard, i):
                 preset[attr] = r.random() < 0.5
     # the entry point the caller uses; the csvpath text is handed to it directly (parsed lazily) or parsed first
     method = r.choice(["collect", "collect", "next", "parse+next", "fast_forward", "parse+collect", "collect-nexts-1", "collect-nexts-2"])
-    return {"prog": prog, "rows": rows, "comment": cm, "placement": placement, "preset": preset, "method": method}
+    # a caller with nothing but the printer every CsvPath starts with, and a print() that also runs a function (its
+    # documented second argument): what print-mode leaves of the printers must not change what the run does
+    rb = random.Random(f"{seed}:C15bare:{shard}:{i}")
+    bare = None
+    if rb.random() < 0.15:
+        bare = rb.choice(['print("p $.csvpath.line_number", push("pp", #0))', 'gt(line_number(), 1) -> print("bye", stop())', 'print("n", push("pp", line_number()))'])
+    return {"prog": prog, "rows": rows, "comment": cm, "placement": placement, "preset": preset, "method": method, "bare": bare}
 
 
 _READS = {"n": 0}
@@ -108,12 +114,12 @@ def install_read_hook():
     CsvPath._vfy_reads = True
 
 
-def do_run(text, agg, capture_stdout=True, preset=None, method="collect"):
+def do_run(text, agg, capture_stdout=True, preset=None, method="collect", bare=False):
     from vfy import diffrun, env, hooks
 
     install_read_hook()
     _READS["n"] = 0
-    c, cap = env.new_csvpath(["collect", "print"], print_default=True)  # (as a caller gets it: the standard-out printer first)
+    c, cap = env.new_csvpath(["collect", "print"], printer=not bare, print_default=True)  # (as a caller gets it: the standard-out printer first)
     # a printer that is not standard out although it derives from the standard-out printer class (the library's LogPrinter)
     import logging
     from csvpath.util.printer import LogPrinter
@@ -129,7 +135,8 @@ def do_run(text, agg, capture_stdout=True, preset=None, method="collect"):
     lg = logging.Logger("vfy-c15")
     sink = _Sink()
     lg.addHandler(sink)
-    c.add_printer(LogPrinter(lg))
+    if not bare:
+        c.add_printer(LogPrinter(lg))
     for attr, val in (preset or {}).items():
         setattr(c, attr, val)
     with env.quiet_stdout() as q, hooks.recording(agg) as rec:
@@ -157,7 +164,7 @@ def do_run(text, agg, capture_stdout=True, preset=None, method="collect"):
         "lines": lines,
         "exc": exc,
         "rec": rec,
-        "printed": list(cap.lines),
+        "printed": list(cap.lines) if cap is not None else [],
         "logged": list(sink.msgs),
         "stdout": q.buf.getvalue(),
         "records_read": _READS["n"],
@@ -169,7 +176,10 @@ def run_case(case, agg):
     prog, rows, cm, placement = case["prog"], case["rows"], case["comment"], case["placement"]
     with open("m.csv", "w", newline="") as f:
         f.write(lang.rows_to_text(rows))
-    body = f"$m.csv[{prog['scan']}][{' '.join(lang.txt(c) for c in prog['comps'])}]"
+    bare = case.get("bare")
+    body = f"$m.csv[{prog['scan']}][{' '.join(lang.txt(c) for c in prog['comps'])}" + (f" {bare}" if bare else "") + "]"
+    if bare:
+        agg.count("runs_with_only_the_default_printer")
     modes = cm["modes"]
     OR = modes["logic-mode"] == "OR"
     base_text = ("~ logic-mode: OR ~ " if OR else "") + body
@@ -187,8 +197,8 @@ def run_case(case, agg):
     method = case.get("method", "collect")
     w["entry_point"] = method
     agg.count("entry:" + method)
-    base = do_run(base_text, agg, method=method)
-    run = do_run(text, agg, preset=case.get("preset"), method=method)
+    base = do_run(base_text, agg, method=method, bare=bool(bare))
+    run = do_run(text, agg, preset=case.get("preset"), method=method, bare=bool(bare))
     case["_scanned"] = any(ev["considered"] for ev in base["rec"].lines)
     if base["exc"]:
         return "undecided", None
@@ -292,6 +302,10 @@ def run_case(case, agg):
         if run["stdout"].strip():
             w["stdout"] = run["stdout"][:200]
             return "no-default-still-prints", w
+    elif bare:
+        if run["stdout"] != base["stdout"]:
+            w["stdout"] = [base["stdout"][:200], run["stdout"][:200]]
+            return "default-printer-differs", w
     else:
         exp = "\n".join(run["printed"]).splitlines()
         if out_lines != exp:
